@@ -8,6 +8,7 @@ import (
 	"runtime"
 	"sort"
 	"strings"
+	"sync"
 	"time"
 
 	"verif/internal/pipeline"
@@ -345,4 +346,67 @@ func Replay(path string) (*Case, []string, error) {
 	defer cleanup()
 	fails, err := e.Evaluate(c)
 	return c, fails, err
+}
+
+// Determinism executes the same explicit RunSpec n times (GOMAXPROCS 1/4/16) and compares stdout and
+// the event log; it also checks that the case list is a pure function of the seed.
+func Determinism(n int) (map[string]interface{}, bool, error) {
+	e, _, cleanup, err := Setup(true)
+	if err != nil {
+		return nil, false, err
+	}
+	defer cleanup()
+	corpus := spec.Corpus()
+	ok := true
+	report := map[string]interface{}{}
+	// 1. case generation is a function of the seed
+	for _, seed := range []uint64{1, 99} {
+		h := func() string {
+			var parts []string
+			for _, c := range C14Cases(corpus, C14Configs(corpus), seed, "quick", 12) {
+				parts = append(parts, caseKey(c))
+			}
+			cs, _ := C16Cases(corpus, seed, "quick", 10)
+			for _, c := range cs {
+				parts = append(parts, caseKey(c))
+			}
+			rp := spec.RandomProgram(seed*31+5, spec.RandomOpts{})
+			pb, _ := json.Marshal(rp)
+			parts = append(parts, sha(pb))
+			return sha([]byte(strings.Join(parts, "")))
+		}
+		a, b := h(), h()
+		report[fmt.Sprintf("case-generation/seed=%d", seed)] = map[string]interface{}{"identical": a == b, "digest": a[:16]}
+		ok = ok && a == b
+	}
+	// 2. one explicit schedule, many processes
+	cases := C14Cases(corpus, C14Configs(corpus), 5, "quick", 6)
+	for _, ci := range []int{2, 5, 9} {
+		c := cases[ci]
+		outs := make([]string, n)
+		var wg sync.WaitGroup
+		sem := make(chan struct{}, runtime.NumCPU())
+		for i := 0; i < n; i++ {
+			wg.Add(1)
+			go func(i int) {
+				defer wg.Done()
+				sem <- struct{}{}
+				defer func() { <-sem }()
+				rs := c.Run
+				rs.Env = []string{fmt.Sprintf("GOMAXPROCS=%d", []int{1, 4, 16}[i%3])}
+				o := e.Exec(c.Program, &rs)
+				outs[i] = sha(o.Stdout) + "/" + sha([]byte(strings.Join(o.Events, "\n"))) + fmt.Sprintf("/%d", o.Exit)
+			}(i)
+		}
+		wg.Wait()
+		same := true
+		for i := 1; i < n; i++ {
+			if outs[i] != outs[0] {
+				same = false
+			}
+		}
+		report["schedule-replay/"+c.Clause] = map[string]interface{}{"runs": n, "identical": same, "digest": outs[0][:16]}
+		ok = ok && same
+	}
+	return report, ok, nil
 }
